@@ -24,6 +24,7 @@ from .stream_item_queue import StreamItemQueue
 from .work_queue import Work, WorkResult, WorkTask, cancel_task, cancel_work
 
 if TYPE_CHECKING:
+    from asyncio import Future
     from collections.abc import AsyncIterator, Iterator, Sequence
 
     from ...pyutils import AwaitableOrValue, Path
@@ -239,6 +240,11 @@ class IncrementalExecutor(Executor[DeliveryGroupMap]):
         abort_result = self.abort(reason)
         if self.is_awaitable(abort_result):
             self.settle_in_background([abort_result])
+
+    def abort_if_cancelled(self, future: Future[Any]) -> None:
+        """Abort the produced incremental work if the given future was cancelled."""
+        if future.cancelled():
+            self.abort_in_background()
 
     def build_response(
         self, data: dict[str, Any] | None
@@ -680,7 +686,11 @@ class IncrementalExecutor(Executor[DeliveryGroupMap]):
                 )
                 if is_awaitable(result):
                     if enable_early_execution:
-                        await queue.push(ensure_future(result))
+                        future = ensure_future(result)
+                        # A future that is cancelled before it has been started
+                        # cannot abort the work that the item has already produced.
+                        future.add_done_callback(sub_executor.abort_if_cancelled)
+                        await queue.push(future)
                     else:
                         await queue.push(await result)
                 else:
